@@ -1,11 +1,12 @@
 CONSTANTS
-  Peer = {1, 2}
-  Repo = {1, 2}
-  Persistent = {2}
-  Capacity = 1
+  Peer = {1, 2, 3}
+  Repo = {1, 2, 3}
+  Persistent <- TPersistent
+  Capacity <- TCapacity
   QueueMax = 128
   MaxTasks = 100000
   MaxOps = 100000
+  RetryExact = FALSE
   SyncTask = TRUE
   Dev = {"late-same-peer"}
 INIT TInit
